@@ -61,12 +61,15 @@ def run_cases(cases):
     for cs in cases:
         fp = cs.get('fp')
         code = cs['code']
-        buf += bytes([(1 if fp else 0) | (4 if cs.get('low') == 'top' else (2 if cs.get('low') else 0)), len(code)]) + code.ljust(16, b'\x90')[:16]
+        x87 = cs.get('x87')
+        buf += bytes([(8 if x87 else 0) | (1 if fp else 0) | (4 if cs.get('low') == 'top' else (2 if cs.get('low') else 0)), len(code)]) + code.ljust(16, b'\x90')[:16]
         buf += struct.pack('<8I', *[x & 0xffffffff for x in cs['regs']])
         buf += struct.pack('<I', cs['eflags'])
         buf += cs['hot']
         if fp:
             buf += fp[0] + fp[1]
+        if x87:
+            buf += x87[0] + bytes([x87[1]])
     p = subprocess.run([t, c], input=bytes(buf), stdout=subprocess.PIPE, stderr=subprocess.PIPE)
     if p.returncode != 0:
         raise RuntimeError('tracer failed: rc=%d %s' % (p.returncode, p.stderr.decode(errors='replace')[:300]))
@@ -84,5 +87,32 @@ def run_cases(cases):
             r['mm'] = out[pos:pos + 64]
             r['xmm'] = out[pos + 64:pos + 192]
             pos += 192
+        if cs.get('x87'):
+            r['st'] = out[pos:pos + 80]
+            r['swd'], = struct.unpack_from('<H', out, pos + 80)
+            r['ftw'] = out[pos + 82]
+            pos += 83
         res.append(r)
     return res
+
+
+def f80(x):
+    """80-bit extended encoding (little-endian 10 bytes) of a finite Python float."""
+    import math
+    if x == 0:
+        return bytes(10)
+    sign = 0x8000 if x < 0 else 0
+    m, e = math.frexp(abs(x))            # abs(x) = m * 2**e, 0.5 <= m < 1
+    mant = int(m * (1 << 64))            # explicit integer bit set
+    return struct.pack('<QH', mant & 0xffffffffffffffff, sign | (e - 1 + 16383))
+
+
+def from_f80(b):
+    mant, se = struct.unpack('<QH', b)
+    e = se & 0x7fff
+    if e == 0 and mant == 0:
+        return 0.0
+    if e == 0x7fff:
+        return float('nan') if mant << 1 & 0xffffffffffffffff else (float('-inf') if se & 0x8000 else float('inf'))
+    v = mant / float(1 << 63) * 2.0 ** (e - 16383)
+    return -v if se & 0x8000 else v
